@@ -128,42 +128,6 @@ theorem c12_checkForError_common (others : List Re) (l : Line) (h : commonMarker
 
 /-! ## the adapters -/
 
-theorem preNonTotal_rebenchLog : PreNonTotal classifyRebenchLog := by
-  intro l lm h p hp
-  unfold classifyRebenchLog at h
-  split at h
-  · simp at h; subst h; simp at hp
-  · split at h
-    · simp at h; subst h; simp at hp
-    · cases h
-
-theorem preNonTotal_plainSeconds : PreNonTotal classifyPlainSeconds := by
-  intro l lm h p hp
-  unfold classifyPlainSeconds at h
-  split at h
-  · simp at h; subst h; simp at hp
-  · cases h
-
-theorem preNonTotal_validation : PreNonTotal classifyValidation := by
-  intro l lm h p hp
-  unfold classifyValidation at h
-  split at h
-  · simp at h; subst h; simp at hp; subst hp; rfl
-  · split at h
-    · simp at h; subst h
-      simp at hp
-      rcases hp with hp | hp | hp <;> (subst hp; rfl)
-    · cases h
-
-theorem preNonTotal_timeFormatted : PreNonTotal classifyTimeFormatted := by
-  intro l lm h p hp
-  unfold classifyTimeFormatted at h
-  split at h
-  · simp at h; subst h; simp at hp
-  · split at h
-    · simp at h; subst h; simp at hp
-    · cases h
-
 /-- every built-in adapter except ValidationLog, both `include_faulty` settings,
 every invocation number, every text: a reject or a well-formed result -/
 theorem c12_parse_wf (a : Adapter) (ha : a ≠ .validation) (faulty : Bool) (inv : Nat) (text : List Char) :
@@ -198,7 +162,18 @@ example : (beforeMarker (cfgValidation false).marker
     (splitLines "[Total]\tA#12\tM#3\tP#4\nB: iterations=1 runtime: 5ms success: true".toList)).any actorsOverlong = false := by
   decide +kernel
 
--- WITNESS_PLACEHOLDER
+/-- the full statement fails: every text with such a line (before the first marker line) ends
+`parse_data` with the `ValueError` of `int()` instead of a reject or a result -/
+theorem c12_validation_wf_full_fails (faulty : Bool) (inv : Nat) (text : List Char)
+    (h : (beforeMarker (cfgValidation faulty).marker (splitLines text)).any actorsOverlong = true) :
+    parse .validation faulty inv text = .intDigitsError := by
+  simp only [parse, h, if_true]
+
+/-- such lines exist; shown with the limit scaled down from 4300 to 3 digits (the kernel cannot
+evaluate the matcher on a 4301-digit literal; the real witness is in the corpus and is replayed
+on the code by every check run) -/
+example : actorsOverlongWith 3 "[Total]\tA#9999\tM#1\tP#1".toList = true ∧
+    actorsOverlongWith 3 "[Total]\tA#999\tM#1\tP#1".toList = false := by decide +kernel
 
 /-- a common marker in the text the adapter looks at, faulty results not
 requested: rejected as invalid (all adapters but ValidationLog; JMH looks at the
